@@ -123,8 +123,11 @@ inductive CtxOp
   /-- `set_frame_into_focus(k)`; `ip` = the instruction pointer the unwinder reports for frame `k`
   (`none`: the backtrace has no frame `k`, `FrameNotFound`).  The theorems hold for EVERY `ip`. -/
   | frame (k : Nat) (ip : Option Addr)
-  | backtrace
-  | locals
+  /-- `backtrace` / reading the local variables of the focused frame.  Whether the unwinder / the DWARF evaluation
+  succeeds at the focused pc (`ok`) is not this model's subject (C05, C06, C19): it is an input, the theorems hold for
+  both values. -/
+  | backtrace (ok : Bool)
+  | locals (ok : Bool)
 deriving DecidableEq, Repr
 
 inductive COp
@@ -146,8 +149,10 @@ def execCtx (c : CSt) (x : CtxOp) : CSt × Option Ecx :=
     match x with
     | .frame k (some ip) => ({ c with ecx := { pc := ip, frame := k } }, some { pc := ip, frame := k })
     | .frame _ none => (c, none)
-    | .backtrace => (c, some c.ecx)
-    | .locals => (c, some c.ecx)
+    | .backtrace true => (c, some c.ecx)
+    | .locals true => (c, some c.ecx)
+    | .backtrace false => (c, none)
+    | .locals false => (c, none)
   | _ => (c, none)
 
 /-- `break`, `remove`, `start`, `continue` of C01 on the debugger with its exploration context -/
